@@ -154,6 +154,7 @@ class RecordError:
         h = p.heap[obj.ref]
         if isinstance(h.fields['err'], VNone):
             h.fields['err'] = msg
+            p.ghost.setdefault('err_set_at', len(p.events))       # everything transmitted from here on happens with the error latched
         yield p, NONE
 
 
@@ -192,12 +193,14 @@ class CommandContract:
         q.trail.append('cmd-wfail')
         q.events.append(('write-exc', data))
         q.heap[obj.ref].fields['err'] = fresh_err('cmd_err')
+        q.ghost.setdefault('err_set_at', len(q.events))
         yield q, FALSE
         # written, then failed (timeout / error reply / mismatch / read exception)
         q = p.fork()
         q.trail.append('cmd-fail')
         q.events.append(('write', data))
         q.heap[obj.ref].fields['err'] = fresh_err('cmd_err')
+        q.ghost.setdefault('err_set_at', len(q.events))
         yield q, FALSE
         p.events.append(('write', data))
         p.trail.append('cmd-ok')
@@ -234,11 +237,13 @@ class QueryContract:
             q.trail.append('qry-wfail')
             q.events.append(('write-exc', data))
             q.heap[obj.ref].fields['err'] = fresh_err('qry_err')
+            q.ghost.setdefault('err_set_at', len(q.events))
             yield q, NONE
             q = p.fork()
             q.trail.append('qry-fail')
             q.events.append(('write', data))
             q.heap[obj.ref].fields['err'] = fresh_err('qry_err')
+            q.ghost.setdefault('err_set_at', len(q.events))
             yield q, NONE
         p.events.append(('write', data))
         p.trail.append('qry-ok')
